@@ -137,3 +137,649 @@ Proof.
   - split; [intros e He; injection He as <-; left; reflexivity|].
     split; [discriminate|intros [Hc _]; discriminate].
 Qed.
+
+(* ------------------------------------------------------------------ *)
+(** * A2. Cumulative ballots (name_Cumulative) *)
+
+Definition cs_upd (c : pcand) (p : pcand * Q) : pcand * Q :=
+  if Pos.eqb c (fst p) then (fst p, snd p + 1) else p.
+Definition cs_step (c : pcand) (acc : list (pcand * Q)) : list (pcand * Q) :=
+  if pmem c (map fst acc) then map (cs_upd c) acc else acc ++ [(c, 1)].
+
+Lemma count_scores_cons : forall c l acc, count_scores (c :: l) acc = count_scores l (cs_step c acc).
+Proof. reflexivity. Qed.
+
+Lemma cs_upd_fst : forall c p, fst (cs_upd c p) = fst p.
+Proof. intros c p. unfold cs_upd. destruct (Pos.eqb c (fst p)); reflexivity. Qed.
+
+Lemma cs_step_keys : forall c acc,
+  map fst (cs_step c acc) = if pmem c (map fst acc) then map fst acc else map fst acc ++ [c].
+Proof.
+  intros c acc. unfold cs_step. destruct (pmem c (map fst acc)).
+  - rewrite map_map. apply map_ext. apply cs_upd_fst.
+  - rewrite map_app. reflexivity.
+Qed.
+
+Lemma cs_step_In : forall c acc c',
+  In c' (map fst (cs_step c acc)) <-> In c' (map fst acc) \/ c' = c.
+Proof.
+  intros c acc c'. rewrite cs_step_keys. destruct (pmem c (map fst acc)) eqn:E.
+  - apply pmem_In in E. split; [intros H; left; exact H|]. intros [H| ->]; assumption.
+  - rewrite in_app_iff. cbn [In]. split.
+    + intros [H|[<-|[]]]; [left; exact H|right; reflexivity].
+    + intros [H| ->]; [left; exact H|right; left; reflexivity].
+Qed.
+
+Lemma cs_step_NoDup : forall c acc, NoDup (map fst acc) -> NoDup (map fst (cs_step c acc)).
+Proof.
+  intros c acc H. rewrite cs_step_keys. destruct (pmem c (map fst acc)) eqn:E; [exact H|].
+  apply pmem_false in E. apply Lib_sets.NoDup_app_intro.
+  - exact H.
+  - constructor; [intros []|constructor].
+  - intros a Ha [<-|[]]. apply E. exact Ha.
+Qed.
+
+Lemma cs_upd_sum : forall c acc, NoDup (map fst acc) ->
+  qsum (map snd (map (cs_upd c) acc)) == qsum (map snd acc) + (if pmem c (map fst acc) then 1 else 0).
+Proof.
+  intros c acc. induction acc as [|[a v] acc IH]; intros Hnd.
+  - cbn [map pmem existsb]. rewrite qsum_nil. ring.
+  - cbn [map fst] in Hnd. inversion Hnd as [|x l Hnotin Hnd']; subst.
+    cbn [map]. rewrite !qsum_cons, (IH Hnd'). unfold cs_upd at 1. cbn [fst snd].
+    unfold pmem. cbn [existsb]. fold (pmem c (map fst acc)).
+    destruct (Pos.eqb_spec c a) as [->|Hne]; cbn [orb snd].
+    + apply pmem_false in Hnotin. rewrite Hnotin. ring.
+    + ring.
+Qed.
+
+Lemma cs_step_sum : forall c acc, NoDup (map fst acc) ->
+  qsum (map snd (cs_step c acc)) == qsum (map snd acc) + 1.
+Proof.
+  intros c acc Hnd. unfold cs_step. destruct (pmem c (map fst acc)) eqn:E.
+  - rewrite (cs_upd_sum c acc Hnd), E. reflexivity.
+  - rewrite map_app, qsum_app. cbn [map snd]. rewrite qsum_cons, qsum_nil. ring.
+Qed.
+
+Lemma lookupP_cons : forall a v (acc : list (pcand * Q)) c,
+  lookupP ((a, v) :: acc) c = if Pos.eqb c a then v else lookupP acc c.
+Proof.
+  intros a v acc c. unfold lookupP. cbn [find fst]. destruct (Pos.eqb c a); reflexivity.
+Qed.
+
+Lemma lookupP_not_in : forall (acc : list (pcand * Q)) c, ~ In c (map fst acc) -> lookupP acc c = 0.
+Proof.
+  induction acc as [|[a v] acc IH]; intros c H; [reflexivity|].
+  rewrite lookupP_cons. cbn [map fst In] in H. destruct (Pos.eqb_spec c a) as [->|Hne].
+  - exfalso. apply H. left. reflexivity.
+  - apply IH. intros Hc. apply H. right. exact Hc.
+Qed.
+
+Lemma cs_upd_lookup : forall c acc c',
+  lookupP (map (cs_upd c) acc) c' ==
+  lookupP acc c' + (if Pos.eqb c' c && pmem c (map fst acc) then 1 else 0).
+Proof.
+  intros c acc c'. induction acc as [|[a v] acc IH].
+  - cbn [map pmem existsb]. rewrite andb_false_r. unfold lookupP. cbn [find]. ring.
+  - cbn [map]. unfold cs_upd at 1. cbn [fst snd]. unfold pmem. cbn [existsb].
+    fold (pmem c (map fst acc)).
+    destruct (Pos.eqb c a) eqn:Eca; cbn [orb]; rewrite !lookupP_cons;
+      destruct (Pos.eqb c' a) eqn:Ec'a.
+    + apply Pos.eqb_eq in Eca. apply Pos.eqb_eq in Ec'a. subst. rewrite Pos.eqb_refl. cbn [andb]. ring.
+    + rewrite IH. apply Pos.eqb_eq in Eca. subst. rewrite Ec'a. cbn [andb]. ring.
+    + apply Pos.eqb_eq in Ec'a. subst. rewrite Pos.eqb_sym, Eca. cbn [andb]. ring.
+    + exact IH.
+Qed.
+
+Lemma cs_step_lookup : forall c acc c',
+  lookupP (cs_step c acc) c' == lookupP acc c' + (if Pos.eqb c' c then 1 else 0).
+Proof.
+  intros c acc c'. unfold cs_step. destruct (pmem c (map fst acc)) eqn:E.
+  - rewrite cs_upd_lookup, E, andb_true_r. reflexivity.
+  - apply pmem_false in E. induction acc as [|[a v] acc IH].
+    + cbn [app]. rewrite lookupP_cons. unfold lookupP. cbn [find].
+      destruct (Pos.eqb c' c); ring.
+    + cbn [app]. rewrite !lookupP_cons. cbn [map fst In] in E.
+      destruct (Pos.eqb_spec c' a) as [->|Hne'].
+      * destruct (Pos.eqb_spec a c) as [->|_]; [exfalso; apply E; left; reflexivity|ring].
+      * apply IH. intros Hc. apply E. right. exact Hc.
+Qed.
+
+Lemma cs_step_whole_pos : forall c acc,
+  (forall c' v, In (c', v) acc -> whole_pos v) ->
+  forall c' v, In (c', v) (cs_step c acc) -> whole_pos v.
+Proof.
+  intros c acc H c' v Hin. unfold cs_step in Hin. destruct (pmem c (map fst acc)).
+  - apply in_map_iff in Hin. destruct Hin as ([a v0] & E & Hp). unfold cs_upd in E. cbn [fst snd] in E.
+    destruct (Pos.eqb c a).
+    + injection E as _ <-. destruct (H a v0 Hp) as (n & Hn & Hv). exists (S n). split; [lia|].
+      rewrite Qnat_S, Hv. reflexivity.
+    + injection E as _ <-. exact (H a v0 Hp).
+  - apply in_app_or in Hin. destruct Hin as [Hin|[E|[]]]; [exact (H c' v Hin)|].
+    injection E as _ <-. apply whole_pos_1. reflexivity.
+Qed.
+
+Lemma draw_count_cons : forall x l c,
+  draw_count (x :: l) c = ((if Pos.eqb c x then 1 else 0) + draw_count l c)%nat.
+Proof.
+  intros x l c. unfold draw_count. cbn [count_occ].
+  destruct (Pos.eq_dec x c) as [->|Hne].
+  - rewrite Pos.eqb_refl. reflexivity.
+  - destruct (Pos.eqb_spec c x) as [->|_]; [contradiction|reflexivity].
+Qed.
+
+Lemma count_scores_inv : forall l acc,
+  NoDup (map fst acc) -> (forall c v, In (c, v) acc -> whole_pos v) ->
+  NoDup (map fst (count_scores l acc)) /\
+  (forall c v, In (c, v) (count_scores l acc) -> whole_pos v) /\
+  qsum (map snd (count_scores l acc)) == qsum (map snd acc) + Qnat (length l) /\
+  (forall c, In c (map fst (count_scores l acc)) <-> In c (map fst acc) \/ In c l) /\
+  (forall c, lookupP (count_scores l acc) c == lookupP acc c + Qnat (draw_count l c)).
+Proof.
+  induction l as [|x l IH]; intros acc Hnd Hwp.
+  - cbn [count_scores length]. split; [exact Hnd|]. split; [exact Hwp|].
+    split; [rewrite Qnat_0; ring|]. split; [intros c; cbn [In]; tauto|].
+    intros c. unfold draw_count. cbn [count_occ]. rewrite Qnat_0. ring.
+  - rewrite count_scores_cons.
+    destruct (IH (cs_step x acc) (cs_step_NoDup x acc Hnd) (cs_step_whole_pos x acc Hwp))
+      as (H1 & H2 & H3 & H4 & H5).
+    split; [exact H1|]. split; [exact H2|]. split.
+    { rewrite H3, (cs_step_sum x acc Hnd). cbn [length]. rewrite Qnat_S. ring. }
+    split.
+    { intros c. rewrite H4, cs_step_In. cbn [In]. split.
+      - intros [[H| ->]|H]; [left; exact H|right; left; reflexivity|right; right; exact H].
+      - intros [H|[<-|H]]; [left; left; exact H|left; right; reflexivity|right; exact H]. }
+    intros c. rewrite H5, cs_step_lookup, draw_count_cons, Qnat_plus.
+    destruct (Pos.eqb c x); [change (Qnat 1) with 1|rewrite Qnat_0]; ring.
+Qed.
+
+Theorem cumulative_ballot_wf : forall iv nv d b calls,
+  cumulative_ballot iv nv d = inl (b, calls) ->
+  rk b = [] /\ wt b == 1 /\
+  length d = nv /\ incl d (map fst (pi_int iv)) /\
+  NoDup (map fst (sc b)) /\
+  (forall c, In c (map fst (sc b)) <-> In c d) /\
+  incl (map fst (sc b)) (map fst (pi_int iv)) /\
+  (forall c v, In (c, v) (sc b) -> whole_pos v /\ v == Qnat (draw_count d c)) /\
+  qsum (map snd (sc b)) == Qnat nv /\
+  calls = [GIID (pi_int iv) nv].
+Proof.
+  intros iv nv d b calls H. unfold cumulative_ballot in H.
+  destruct (valid_iid (map fst (pi_int iv)) nv d) eqn:Ev; cbn [negb] in H; [|discriminate].
+  injection H as <- <-. cbn [rk wt sc]. apply valid_iid_iff in Ev. destruct Ev as (Hl & Hin).
+  destruct (count_scores_inv d [] (NoDup_nil _) (fun c v (F : In (c, v) []) => match F with end))
+    as (H1 & H2 & H3 & H4 & H5).
+  split; [reflexivity|]. split; [reflexivity|]. split; [exact Hl|]. split; [exact Hin|].
+  split; [exact H1|].
+  assert (Hk : forall c, In c (map fst (count_scores d [])) <-> In c d).
+  { intros c. rewrite H4. cbn [map In]. tauto. }
+  split; [exact Hk|]. split; [intros c Hc; apply Hin; apply Hk; exact Hc|].
+  split.
+  { intros c v Hcv. split; [exact (H2 c v Hcv)|].
+    rewrite <- (lookupP_spec _ c v H1 Hcv), H5. cbn. ring. }
+  split; [|reflexivity]. rewrite H3, Hl. cbn [map]. rewrite qsum_nil. ring.
+Qed.
+
+(* ------------------------------------------------------------------ *)
+(** * A7. ballot_pool_to_profile *)
+
+Definition getn (acc : list (list pcand * nat)) (r : list pcand) : nat :=
+  match find (fun x => list_peqb (fst x) r) acc with Some x => snd x | None => O end.
+
+Lemma getn_cons : forall a n acc r,
+  getn ((a, n) :: acc) r = if list_peqb a r then n else getn acc r.
+Proof. intros a n acc r. unfold getn. cbn [find fst]. destruct (list_peqb a r); reflexivity. Qed.
+
+Lemma list_peqb_refl : forall a, list_peqb a a = true.
+Proof. intros a. apply list_peqb_true_iff. reflexivity. Qed.
+
+Lemma list_peqb_false_iff : forall a b, list_peqb a b = false <-> a <> b.
+Proof.
+  intros a b. rewrite <- list_peqb_true_iff. destruct (list_peqb a b); split; intros H;
+    try reflexivity; try discriminate; try (intros H'; discriminate). exfalso. apply H. reflexivity.
+Qed.
+
+Lemma pool_add_keys : forall acc r r',
+  In r' (map fst (pool_add acc r)) <-> In r' (map fst acc) \/ r' = r.
+Proof.
+  induction acc as [|[a n] acc IH]; intros r r'; cbn [pool_add].
+  - cbn [map fst In]. split; [intros [<-|[]]; right; reflexivity|intros [[]| ->]; left; reflexivity].
+  - destruct (list_peqb a r) eqn:E.
+    + apply list_peqb_true_iff in E. subst a. cbn [map fst In]. split.
+      * intros H. left. exact H.
+      * intros [H| ->]; [exact H|left; reflexivity].
+    + cbn [map fst In]. rewrite IH. tauto.
+Qed.
+
+Lemma pool_add_NoDup : forall acc r, NoDup (map fst acc) -> NoDup (map fst (pool_add acc r)).
+Proof.
+  induction acc as [|[a n] acc IH]; intros r H; cbn [pool_add].
+  - cbn [map fst]. constructor; [intros []|constructor].
+  - cbn [map fst] in H. inversion H as [|x l Hnotin Hnd]; subst.
+    destruct (list_peqb a r) eqn:E.
+    + cbn [map fst]. constructor; assumption.
+    + cbn [map fst]. constructor; [|apply IH; exact Hnd].
+      rewrite pool_add_keys. intros [Hc| ->]; [contradiction|].
+      apply list_peqb_false_iff in E. apply E. reflexivity.
+Qed.
+
+Lemma pool_add_getn : forall acc r r',
+  getn (pool_add acc r) r' = (getn acc r' + if list_peqb r r' then 1 else 0)%nat.
+Proof.
+  induction acc as [|[a n] acc IH]; intros r r'; cbn [pool_add].
+  - rewrite getn_cons. unfold getn. cbn [find]. destruct (list_peqb r r'); reflexivity.
+  - destruct (list_peqb a r) eqn:E.
+    + apply list_peqb_true_iff in E. subst a. rewrite !getn_cons.
+      destruct (list_peqb r r'); lia.
+    + rewrite !getn_cons. destruct (list_peqb a r') eqn:E'.
+      * apply list_peqb_true_iff in E'. subst a.
+        apply list_peqb_false_iff in E.
+        destruct (list_peqb r r') eqn:E2; [apply list_peqb_true_iff in E2; congruence|lia].
+      * apply IH.
+Qed.
+
+Lemma pool_add_pos : forall acc r,
+  (forall a n, In (a, n) acc -> (0 < n)%nat) -> forall a n, In (a, n) (pool_add acc r) -> (0 < n)%nat.
+Proof.
+  induction acc as [|[a0 n0] acc IH]; intros r H a n Hin; cbn [pool_add] in Hin.
+  - destruct Hin as [E|[]]. injection E as _ <-. lia.
+  - destruct (list_peqb a0 r).
+    + destruct Hin as [E|Hin]; [injection E as _ <-; lia|]. apply (H a n). right. exact Hin.
+    + destruct Hin as [E|Hin]; [injection E as <- <-; apply (H a0 n0); left; reflexivity|].
+      apply (IH r (fun a' n' H' => H a' n' (or_intror H')) a n Hin).
+Qed.
+
+Lemma list_sum_cons : forall x l, list_sum (x :: l) = (x + list_sum l)%nat.
+Proof. reflexivity. Qed.
+
+Lemma pool_add_sum : forall acc r,
+  list_sum (map snd (pool_add acc r)) = S (list_sum (map snd acc)).
+Proof.
+  induction acc as [|[a n] acc IH]; intros r; cbn [pool_add].
+  - reflexivity.
+  - destruct (list_peqb a r); cbn [map snd]; rewrite ?list_sum_cons; [cbn [map snd]; lia|]. rewrite IH. lia.
+Qed.
+
+Lemma pool_count_cons : forall x l r,
+  pool_count (x :: l) r = ((if list_peqb x r then 1 else 0) + pool_count l r)%nat.
+Proof.
+  intros x l r. unfold pool_count, list_peqb. cbn [count_occ].
+  destruct (list_eq_dec Pos.eq_dec x r); reflexivity.
+Qed.
+
+Lemma pool_fold_inv : forall pool acc,
+  NoDup (map fst acc) -> (forall a n, In (a, n) acc -> (0 < n)%nat) ->
+  NoDup (map fst (fold_left pool_add pool acc)) /\
+  (forall a n, In (a, n) (fold_left pool_add pool acc) -> (0 < n)%nat) /\
+  (forall r, getn (fold_left pool_add pool acc) r = (getn acc r + pool_count pool r)%nat) /\
+  (forall r, In r (map fst (fold_left pool_add pool acc)) <-> In r (map fst acc) \/ In r pool) /\
+  list_sum (map snd (fold_left pool_add pool acc)) = (list_sum (map snd acc) + length pool)%nat.
+Proof.
+  induction pool as [|x pool IH]; intros acc Hnd Hpos; cbn [fold_left].
+  - split; [exact Hnd|]. split; [exact Hpos|]. split; [intros r; unfold pool_count; cbn; lia|].
+    split; [intros r; cbn [In]; tauto|]. cbn [length]. lia.
+  - destruct (IH (pool_add acc x) (pool_add_NoDup acc x Hnd) (pool_add_pos acc x Hpos))
+      as (H1 & H2 & H3 & H4 & H5).
+    split; [exact H1|]. split; [exact H2|]. split.
+    { intros r. rewrite H3, pool_add_getn, pool_count_cons. lia. }
+    split.
+    { intros r. rewrite H4, pool_add_keys. cbn [In]. split.
+      - intros [[H| ->]|H]; [left; exact H|right; left; reflexivity|right; right; exact H].
+      - intros [H|[<-|H]]; [left; left; exact H|left; right; reflexivity|right; exact H]. }
+    rewrite H5, pool_add_sum. cbn [length]. lia.
+Qed.
+
+Lemma getn_In : forall acc r n, NoDup (map fst acc) -> In (r, n) acc -> getn acc r = n.
+Proof.
+  induction acc as [|[a m] acc IH]; intros r n Hnd Hin; [destruct Hin|].
+  cbn [map fst] in Hnd. inversion Hnd as [|x l Hnotin Hnd']; subst. rewrite getn_cons.
+  destruct Hin as [E|Hin].
+  - injection E as -> ->. rewrite list_peqb_refl. reflexivity.
+  - destruct (list_peqb a r) eqn:E.
+    + apply list_peqb_true_iff in E. subst a. exfalso. apply Hnotin.
+      apply in_map_iff. exists (r, n). split; [reflexivity|exact Hin].
+    + apply IH; assumption.
+Qed.
+
+Theorem pool_to_profile_ok : forall pool cs p,
+  pool_to_profile pool cs = inl p ->
+  NoDup cs /\ (cs <> [] -> cands p = cs) /\
+  (forall b, In b (ballots p) ->
+     exists r, In r pool /\ rk b = singletons pcand r /\ sc b = [] /\
+               wt b = Qnat (pool_count pool r) /\ (0 < pool_count pool r)%nat) /\
+  (forall r, In r pool -> exists b, In b (ballots p) /\ rk b = singletons pcand r) /\
+  NoDup (map rk (ballots p)) /\
+  total_wt pcand (ballots p) == Qnat (length pool) /\
+  whole_pos_weights (ballots p).
+Proof.
+  intros pool cs p H. unfold pool_to_profile in H.
+  apply (mk_profile_ok pcand Pos.eqb Pos.eqb_spec) in H. destruct H as (Hb & Hc & _ & Hnd).
+  destruct (pool_fold_inv pool [] (NoDup_nil _) (fun a n (F : In (a, n) []) => match F with end))
+    as (H1 & H2 & H3 & H4 & H5).
+  set (counted := fold_left pool_add pool []) in *.
+  assert (Hb' : forall b, In b (ballots p) ->
+     exists r, In r pool /\ rk b = singletons pcand r /\ sc b = [] /\
+               wt b = Qnat (pool_count pool r) /\ (0 < pool_count pool r)%nat).
+  { intros b Hin. rewrite Hb in Hin. apply in_map_iff in Hin. destruct Hin as ([r n] & <- & Hrn).
+    cbn [fst snd plain_ballot rk sc wt]. exists r.
+    assert (Hn : n = pool_count pool r).
+    { rewrite <- (getn_In counted r n H1 Hrn), H3. unfold getn. cbn [find]. lia. }
+    split.
+    { assert (Hk : In r (map fst counted)) by (apply in_map_iff; exists (r, n); split; [reflexivity|exact Hrn]).
+      apply H4 in Hk. destruct Hk as [[]|Hk]. exact Hk. }
+    split; [reflexivity|]. split; [reflexivity|]. split; [rewrite Hn; reflexivity|].
+    rewrite <- Hn. exact (H2 r n Hrn). }
+  split; [exact Hnd|]. split; [exact Hc|]. split; [exact Hb'|]. split.
+  { intros r Hr. assert (Hk : In r (map fst counted)) by (apply H4; right; exact Hr).
+    apply in_map_iff in Hk. destruct Hk as ([r' n] & E & Hrn). cbn [fst] in E. subst r'.
+    exists (plain_ballot pcand (singletons pcand r) (Qnat n)). split; [|reflexivity].
+    rewrite Hb. apply in_map_iff. exists (r, n). split; [reflexivity|exact Hrn]. }
+  split.
+  { rewrite Hb, map_map. cbn [plain_ballot rk].
+    rewrite <- (map_map fst (singletons pcand)). apply NoDup_map_inj; [|exact H1].
+    intros a b _ _ E. apply (singletons_inj pcand). exact E. }
+  split.
+  { rewrite Hb. unfold total_wt. rewrite map_map. cbn [plain_ballot wt].
+    rewrite qsum_map_Qnat_length, H5. cbn [map list_sum]. reflexivity. }
+  intros b Hin. destruct (Hb' b Hin) as (r & _ & _ & _ & -> & Hpos). apply whole_pos_Qnat. exact Hpos.
+Qed.
+
+Theorem pool_to_profile_errors : forall pool cs,
+  (forall e, pool_to_profile pool cs = inr e -> e = EValue) /\
+  (pool_to_profile pool cs = inr EValue <-> ~ NoDup cs) /\
+  (NoDup cs -> exists p, pool_to_profile pool cs = inl p).
+Proof.
+  intros pool cs. unfold pool_to_profile.
+  destruct (mk_profile_dup_full pcand Pos.eqb Pos.eqb_spec
+              (map (fun rn : list pcand * nat =>
+                      plain_ballot pcand (singletons pcand (fst rn)) (Qnat (snd rn)))
+                   (fold_left pool_add pool [])) cs) as (H1 & H2 & H3).
+  split; [exact H2|]. split; [exact H1|exact H3].
+Qed.
+
+(* ------------------------------------------------------------------ *)
+(** * A6. Spatial models: stable sort by distance *)
+
+Definition dle (a b : pcand * Q) : Prop := snd a <= snd b.
+Definition sortp (l : list (pcand * Q)) : list (pcand * Q) := fold_right insert_by [] l.
+
+Lemma insert_by_perm : forall x l, Permutation (insert_by x l) (x :: l).
+Proof.
+  intros x l. induction l as [|y l IH]; cbn [insert_by]; [apply Permutation_refl|].
+  destruct (Qle_bool (snd x) (snd y)); [apply Permutation_refl|].
+  eapply Permutation_trans; [apply perm_skip; exact IH|apply perm_swap].
+Qed.
+
+Lemma insert_by_sorted : forall x l, StronglySorted dle l -> StronglySorted dle (insert_by x l).
+Proof.
+  intros x l H. induction H as [|y l Hs IH Hall]; cbn [insert_by].
+  - constructor; [constructor|constructor].
+  - destruct (Qle_bool (snd x) (snd y)) eqn:E.
+    + apply Qle_bool_iff in E. constructor; [constructor; assumption|].
+      constructor; [exact E|]. rewrite Forall_forall in Hall |- *. intros z Hz.
+      unfold dle in *. apply Qle_trans with (snd y); [exact E|apply Hall; exact Hz].
+    + constructor; [exact IH|]. rewrite Forall_forall in Hall |- *. intros z Hz.
+      apply (Permutation_in _ (insert_by_perm x l)) in Hz. destruct Hz as [<-|Hz].
+      * unfold dle. destruct (Qlt_le_dec (snd y) (snd x)) as [Hlt|Hle].
+        -- apply Qlt_le_weak. exact Hlt.
+        -- apply Qle_bool_iff in Hle. congruence.
+      * apply Hall. exact Hz.
+Qed.
+
+Lemma insert_by_filter : forall q x l,
+  filter (fun p : pcand * Q => Qeq_bool (snd p) q) (insert_by x l) =
+  (if Qeq_bool (snd x) q then [x] else []) ++ filter (fun p : pcand * Q => Qeq_bool (snd p) q) l.
+Proof.
+  intros q x l. induction l as [|y l IH]; cbn [insert_by].
+  - cbn [filter]. destruct (Qeq_bool (snd x) q); reflexivity.
+  - destruct (Qle_bool (snd x) (snd y)) eqn:E.
+    + cbn [filter]. destruct (Qeq_bool (snd x) q); reflexivity.
+    + cbn [filter]. rewrite IH. destruct (Qeq_bool (snd x) q) eqn:Ex; [|reflexivity].
+      destruct (Qeq_bool (snd y) q) eqn:Ey; [|reflexivity].
+      exfalso. apply Qeq_bool_iff in Ex. apply Qeq_bool_iff in Ey.
+      assert (Hle : snd x <= snd y) by (rewrite Ex, Ey; apply Qle_refl).
+      apply Qle_bool_iff in Hle. congruence.
+Qed.
+
+Lemma sortp_perm : forall l, Permutation (sortp l) l.
+Proof.
+  induction l as [|x l IH]; [apply Permutation_refl|]. unfold sortp in *. cbn [fold_right].
+  eapply Permutation_trans; [apply insert_by_perm|apply perm_skip; exact IH].
+Qed.
+
+Lemma sortp_sorted : forall l, StronglySorted dle (sortp l).
+Proof.
+  induction l as [|x l IH]; [constructor|]. unfold sortp in *. cbn [fold_right].
+  apply insert_by_sorted. exact IH.
+Qed.
+
+Lemma sortp_stable : forall q l,
+  filter (fun p : pcand * Q => Qeq_bool (snd p) q) (sortp l) =
+  filter (fun p : pcand * Q => Qeq_bool (snd p) q) l.
+Proof.
+  intros q l. induction l as [|x l IH]; [reflexivity|]. unfold sortp in *. cbn [fold_right].
+  rewrite insert_by_filter, IH. cbn [filter]. destruct (Qeq_bool (snd x) q); reflexivity.
+Qed.
+
+Lemma map_fst_combine : forall (A B : Type) (a : list A) (b : list B),
+  length a = length b -> map fst (combine a b) = a.
+Proof.
+  intros A B a. induction a as [|x a IH]; intros [|y b] H; cbn in H; try discriminate; [reflexivity|].
+  cbn [combine map fst]. rewrite IH; [reflexivity|lia].
+Qed.
+
+Theorem sort_by_distance_ok : forall cs dists,
+  length cs = length dists ->
+  exists sorted : list (pcand * Q),
+    sort_by_distance cs dists = map fst sorted /\
+    Permutation sorted (combine cs dists) /\
+    StronglySorted (fun a b => snd a <= snd b) sorted /\
+    (forall q, at_distance q sorted = at_distance q (combine cs dists)) /\
+    Permutation (sort_by_distance cs dists) cs.
+Proof.
+  intros cs dists Hl. exists (sortp (combine cs dists)).
+  split; [reflexivity|]. split; [apply sortp_perm|]. split; [apply sortp_sorted|].
+  split; [intros q; unfold at_distance; rewrite sortp_stable; reflexivity|].
+  unfold sort_by_distance. fold (sortp (combine cs dists)).
+  rewrite <- (map_fst_combine _ _ cs dists Hl) at 2. apply Permutation_map. apply sortp_perm.
+Qed.
+
+(* ------------------------------------------------------------------ *)
+(** * A3. Table samplers *)
+
+Theorem table_bloc_ok : forall tbl zero n draws bs calls,
+  table_bloc tbl zero n draws = inl (bs, calls) ->
+  length draws = n /\ length bs = n /\ calls = [GTable tbl n] /\
+  bs = map (fun r => unit_ballot (rank_of r zero)) draws /\
+  (forall r, In r draws -> exists v, In (r, v) tbl /\ 0 < v).
+Proof.
+  intros tbl zero n draws bs calls H. unfold table_bloc in H.
+  destruct (Nat.eqb_spec (length draws) n) as [Hl|Hl]; cbn [negb] in H; [|discriminate].
+  match type of H with (if negb ?c then _ else _) = _ => destruct c eqn:Ef end;
+    cbn [negb] in H; [|discriminate].
+  injection H as <- <-. split; [exact Hl|]. split; [rewrite map_length; exact Hl|].
+  split; [reflexivity|]. split; [reflexivity|].
+  intros r Hr. rewrite forallb_forall in Ef. specialize (Ef r Hr). apply existsb_exists in Ef.
+  destruct Ef as ([r' v] & Hin & E). cbn [fst snd] in E. apply andb_true_iff in E. destruct E as [E1 E2].
+  apply list_peqb_true_iff in E1. subst r'. apply Lib_rk.Qlt_bool_iff in E2. exists v. split; assumption.
+Qed.
+
+Theorem table_bloc_bt : forall d zero n draws bs calls,
+  (forall c s, In (c, s) d -> 0 < s) ->
+  table_bloc (bt_pdf d) zero n draws = inl (bs, calls) ->
+  length bs = n /\ calls = [GTable (bt_pdf d) n] /\
+  forall b, In b bs ->
+    exists r, Permutation r (map fst d) /\
+      rk b = singletons pcand r ++ (match zero with [] => [] | _ => [zero] end) /\
+      wt b == 1 /\ sc b = [] /\ flat pcand (rk b) = r ++ zero.
+Proof.
+  intros d zero n draws bs calls Hpos H. apply table_bloc_ok in H.
+  destruct H as (_ & Hn & Hc & -> & Hd). split; [exact Hn|]. split; [exact Hc|].
+  intros b Hb. apply in_map_iff in Hb. destruct Hb as (r & <- & Hr). exists r.
+  destruct (Hd r Hr) as (v & Hv & _).
+  split; [exact (proj1 (bt_pdf_calc_prob d Hpos r v Hv))|].
+  split; [reflexivity|]. split; [reflexivity|]. split; [reflexivity|].
+  cbn [unit_ballot plain_ballot rk]. apply flat_rank_of.
+Qed.
+
+(* ------------------------------------------------------------------ *)
+(** * A9. MCMC kernels keep the multiset of the seed *)
+
+Lemma swap_adj_perm : forall (A : Type) j (l : list A), Permutation (swap_adj j l) l.
+Proof.
+  intros A j. induction j as [|j IH]; intros l.
+  - destruct l as [|x [|y l]]; cbn [swap_adj]; try apply Permutation_refl. apply perm_swap.
+  - destruct l as [|x l]; cbn [swap_adj]; [apply Permutation_refl|]. apply perm_skip. apply IH.
+Qed.
+
+Lemma swap_adj_length : forall (A : Type) j (l : list A), length (swap_adj j l) = length l.
+Proof. intros A j l. apply Permutation_length. apply swap_adj_perm. Qed.
+
+Lemma bt_mcmc_step_perm : forall iv cur s, Permutation (bt_mcmc_step iv cur s) cur.
+Proof.
+  intros iv cur s. unfold bt_mcmc_step.
+  destruct (Qlt_bool (snd s) (bt_accept iv cur (fst s))); [apply swap_adj_perm|apply Permutation_refl].
+Qed.
+
+Theorem bt_mcmc_run_perm : forall iv steps cur r,
+  In r (bt_mcmc_run iv cur steps) -> Permutation r cur.
+Proof.
+  intros iv steps. induction steps as [|s steps IH]; intros cur r H; [destruct H|].
+  cbn [bt_mcmc_run] in H. destruct H as [<-|H]; [apply bt_mcmc_step_perm|].
+  eapply Permutation_trans; [apply (IH _ _ H)|apply bt_mcmc_step_perm].
+Qed.
+
+Lemma bt_mcmc_run_length : forall iv steps cur, length (bt_mcmc_run iv cur steps) = length steps.
+Proof.
+  intros iv steps. induction steps as [|s steps IH]; intros cur; [reflexivity|].
+  cbn [bt_mcmc_run length]. rewrite IH. reflexivity.
+Qed.
+
+Theorem bt_mcmc_bloc_ok : forall iv seed steps bs,
+  bt_mcmc_bloc iv seed steps = inl bs ->
+  length seed = length (pi_int iv) /\ NoDup seed /\ incl seed (map fst (pi_int iv)) /\
+  (NoDup (map fst (pi_int iv)) -> Permutation seed (map fst (pi_int iv))) /\
+  length bs = length steps /\
+  forall b, In b bs ->
+    exists r, Permutation r seed /\
+      rk b = singletons pcand r ++ (match pi_zero iv with [] => [] | _ => [pi_zero iv] end) /\
+      wt b == 1 /\ sc b = [] /\ flat pcand (rk b) = r ++ pi_zero iv.
+Proof.
+  intros iv seed steps bs H. unfold bt_mcmc_bloc in H.
+  destruct (valid_sample (map fst (pi_int iv)) (length (pi_int iv)) seed) eqn:Ev; cbn [negb] in H;
+    [|discriminate].
+  match type of H with (if negb ?c then _ else _) = _ => destruct c end; cbn [negb] in H; [|discriminate].
+  injection H as <-. apply valid_sample_iff in Ev. destruct Ev as (Hl & Hnd & Hin).
+  split; [exact Hl|]. split; [exact Hnd|]. split; [exact Hin|]. split.
+  { intros Hk. apply NoDup_incl_length_perm; try assumption. rewrite map_length. exact Hl. }
+  split; [rewrite map_length; apply bt_mcmc_run_length|].
+  intros b Hb. apply in_map_iff in Hb. destruct Hb as (r & <- & Hr). exists r.
+  split; [apply (bt_mcmc_run_perm _ _ _ _ Hr)|].
+  split; [reflexivity|]. split; [reflexivity|]. split; [reflexivity|].
+  cbn [unit_ballot plain_ballot rk]. apply flat_rank_of.
+Qed.
+
+Lemma slate_mcmc_step_perm : forall own c cur s, Permutation (slate_mcmc_step own c cur s) cur.
+Proof.
+  intros own c cur s. unfold slate_mcmc_step.
+  destruct (Qlt_bool (snd s) (slate_accept own c cur (fst s))); [apply swap_adj_perm|apply Permutation_refl].
+Qed.
+
+Theorem slate_mcmc_run_perm : forall own c steps cur t,
+  In t (slate_mcmc_run own c cur steps) ->
+  Permutation t cur /\ forall b, count_bloc b t = count_bloc b cur.
+Proof.
+  intros own c steps. induction steps as [|s steps IH]; intros cur t H; [destruct H|].
+  cbn [slate_mcmc_run] in H.
+  assert (P : Permutation t cur).
+  { destruct H as [<-|H]; [apply slate_mcmc_step_perm|].
+    eapply Permutation_trans; [apply (proj1 (IH _ _ H))|apply slate_mcmc_step_perm]. }
+  split; [exact P|]. intros b. apply count_bloc_perm. exact P.
+Qed.
+
+(* ------------------------------------------------------------------ *)
+(** * A5. AlternatingCrossover ballots *)
+
+Lemma interleave_length : forall a b,
+  length (interleave a b) = (2 * Nat.min (length a) (length b))%nat.
+Proof.
+  induction a as [|x a IH]; intros [|y b]; cbn [interleave length Nat.min]; try reflexivity.
+  rewrite IH. lia.
+Qed.
+
+Lemma interleave_incl : forall a b, incl (interleave a b) (a ++ b).
+Proof.
+  unfold incl. induction a as [|x a IH]; intros [|y b] z Hz; cbn [interleave] in Hz;
+    try (destruct Hz; fail).
+  destruct Hz as [E|[E|Hz]].
+  - left. exact E.
+  - apply in_or_app. right. left. exact E.
+  - apply IH in Hz. apply in_app_or in Hz. destruct Hz as [Hz|Hz].
+    + right. apply in_or_app. left. exact Hz.
+    + apply in_or_app. right. right. exact Hz.
+Qed.
+
+Lemma interleave_perm : forall a b, length a = length b -> Permutation (interleave a b) (a ++ b).
+Proof.
+  induction a as [|x a IH]; intros [|y b] H; cbn in H; try discriminate; [apply Permutation_refl|].
+  cbn [interleave app]. apply perm_skip.
+  eapply Permutation_trans; [apply perm_skip; apply IH; lia|]. apply Permutation_middle.
+Qed.
+
+Theorem ac_ballot_wf : forall cross bo oo,
+  wt (ac_ballot cross bo oo) == 1 /\ sc (ac_ballot cross bo oo) = [] /\
+  rk (ac_ballot cross bo oo) = singletons pcand (if cross then interleave oo bo else bo ++ oo) /\
+  flat pcand (rk (ac_ballot cross bo oo)) = (if cross then interleave oo bo else bo ++ oo) /\
+  incl (flat pcand (rk (ac_ballot cross bo oo))) (bo ++ oo) /\
+  (cross = false -> flat pcand (rk (ac_ballot cross bo oo)) = bo ++ oo) /\
+  (cross = true ->
+     (Permutation (flat pcand (rk (ac_ballot cross bo oo))) (bo ++ oo) <-> length bo = length oo)).
+Proof.
+  intros cross bo oo. unfold ac_ballot, unit_ballot, plain_ballot. cbn [wt sc rk].
+  rewrite (flat_singletons pcand).
+  split; [reflexivity|]. split; [reflexivity|]. split; [reflexivity|]. split; [reflexivity|].
+  split.
+  { destruct cross; [|apply incl_refl]. intros c Hc. apply interleave_incl in Hc.
+    apply in_app_or in Hc. apply in_or_app. tauto. }
+  split; [intros ->; reflexivity|]. intros ->. split.
+  - intros P. apply Permutation_length in P. rewrite interleave_length, app_length in P. lia.
+  - intros Hl. eapply Permutation_trans; [apply interleave_perm; lia|apply Permutation_app_comm].
+Qed.
+
+Theorem ac_truncates : forall bo oo,
+  length bo <> length oo ->
+  length (flat pcand (rk (ac_ballot true bo oo))) = (2 * Nat.min (length bo) (length oo))%nat /\
+  (length (flat pcand (rk (ac_ballot true bo oo))) < length bo + length oo)%nat.
+Proof.
+  intros bo oo H. unfold ac_ballot, unit_ballot, plain_ballot. cbn [rk].
+  rewrite (flat_singletons pcand), interleave_length. lia.
+Qed.
+
+Theorem ac_bloc_ok : forall draws n_cross i pb po p_bloc p_opp bs calls,
+  ac_bloc n_cross i pb po p_bloc p_opp draws = inl (bs, calls) ->
+  length bs = length draws /\
+  (forall k d, nth_error draws k = Some d ->
+     nth_error bs k = Some (ac_ballot (Nat.ltb (i + k) n_cross) (fst d) (snd d)) /\
+     Permutation (fst d) pb /\ Permutation (snd d) po).
+Proof.
+  induction draws as [|[bo oo] draws IH]; intros n_cross i pb po p_bloc p_opp bs calls H;
+    cbn [ac_bloc] in H.
+  - injection H as <- <-. split; [reflexivity|]. intros [|k] d Hk; discriminate.
+  - destruct (valid_sample pb (length pb) bo) eqn:E1; cbn [andb negb] in H; [|discriminate].
+    destruct (valid_sample po (length po) oo) eqn:E2; cbn [negb] in H; [|discriminate].
+    destruct (ac_bloc n_cross (S i) bo oo p_bloc p_opp draws) as [[bs' cs']|e] eqn:Er;
+      cbn [rbind] in H; [|discriminate].
+    injection H as <- <-. destruct (IH _ _ _ _ _ _ _ _ Er) as (Hl & Hk).
+    apply valid_sample_iff in E1. destruct E1 as (L1 & N1 & I1).
+    apply valid_sample_iff in E2. destruct E2 as (L2 & N2 & I2).
+    assert (P1 : Permutation bo pb).
+    { apply NoDup_Permutation_bis; try assumption. lia. }
+    assert (P2 : Permutation oo po).
+    { apply NoDup_Permutation_bis; try assumption. lia. }
+    split; [cbn [length]; rewrite Hl; reflexivity|].
+    intros [|k] d Hd; cbn [nth_error] in Hd |- *.
+    + injection Hd as <-. cbn [fst snd]. rewrite Nat.add_0_r. repeat split; assumption.
+    + destruct (Hk k d Hd) as (Hb & Q1 & Q2). replace (i + S k)%nat with (S i + k)%nat by lia.
+      split; [exact Hb|]. split.
+      * eapply Permutation_trans; [exact Q1|exact P1].
+      * eapply Permutation_trans; [exact Q2|exact P2].
+Qed.
